@@ -366,12 +366,12 @@ mutual
         simp only [hok, if_true, hnot, Bool.false_eq_true, if_false, RelB, visitDecl_none]
         -- the current parent exists
         obtain ⟨g, hg, hf, hk, _, hp⟩ := coh.node
-        have hP : ∃ p, vc.parent = some p ∧ p < t.length := by
+        have hP : ∃ p, vc.parent = some p ∧ p < t.length ∧ ∀ n v, kindAt t p ≠ some (.decl n v) := by
           cases hs : sc.sel with
           | some S =>
             rw [hs] at hp
-            obtain ⟨p, h1, _, h3, _⟩ := hp
-            exact ⟨p, h1, h3⟩
+            obtain ⟨p, h1, _, h3, h4, _⟩ := hp
+            exact ⟨p, h1, h3, by intro n v h; rw [h4] at h; cases h⟩
           | none =>
             rw [hs] at hp
             simp only [ParentIs] at hp
@@ -381,9 +381,13 @@ mutual
               rw [fullCtx_zero t gd] at hf
               rw [coh.unkf, ← hf] at hu; simp at hu
             simp only [hg0, if_false] at hp
-            exact ⟨g, hp, hg⟩
-        obtain ⟨p, hp1, hp2⟩ := hP
-        obtain ⟨g2, e2, v2⟩ := addDecls_B p (declSpec [] d) t gd hp2
+            refine ⟨g, hp, hg, ?_⟩
+            intro n v h
+            rcases hk with h0 | ⟨k', h1, h2⟩
+            · exact hg0 h0
+            · rw [h1] at h; injection h with h; subst h; simp [Kind.isAt] at h2
+        obtain ⟨p, hp1, hp2, hp3⟩ := hP
+        obtain ⟨g2, e2, v2⟩ := addDecls_B p (declSpec [] d) t gd hp2 hp3
         rw [hp1]
         exact ⟨_, rfl, g2, e2, [], by simp [v2, extOB], rfl, by simp⟩
       · have hnot : (!sc.ruleHere && !sc.inUnknown) = true := by
